@@ -452,6 +452,19 @@ def astPhi (inf : Info) (irProg : List Ir.Func) (astProg : List (Nat × HlslAst.
       Ast.callFunc { P := concretePrim, phi := astPhi inf irProg astProg d, sig := sig } env FUEL afn vals σ
     | _, _ => none
 
+/-- Is the hypothesis `Agree` of the theorems satisfiable for this module?  The C semantics of the Lean model resolves a
+name through one flat environment per function (`Info.env`): it needs the emitted names of a function's parameters and
+locals to be pairwise different and different from the names of the static globals.  That fails (a) for source programs
+that shadow a name or re-use it in a sibling block — the name map keeps both verbatim; the harness's text evaluator
+handles those by C block scoping (harness/src/c01/scopes.rs) — and (b) when the name map itself gives two variables of
+one function the same name (what C15 / `Thm.C01Names.local_pass_collision_free` exclude).  Without it a difference
+between the two Lean semantics says nothing about the exporter. -/
+def namesFlat (inf : Info) (prog : List Ir.Func) : Bool :=
+  prog.all fun f =>
+    let ids := (f.params.map (·.1) ++ stmtsVars f.body).eraseDups
+    let ns := ids.map inf.ctx.locName
+    ns.eraseDups.length == ns.length && ns.all fun n => !(inf.globs.any (·.2.1 == n))
+
 def handleFn (vectors ctx ir : String) : String :=
   let items := parseAll ir
   if items.any (Sx.hasHead "unsupported") || (ctx.splitOn "unsupported").length > 1 then "unsupported" else
@@ -477,7 +490,7 @@ def handleFn (vectors ctx ir : String) : String :=
             | .glob n => ((inf.globs.find? (·.1 == n)).map (·.2.2.2)).getD .void
             | .loc _ => .void
           -- hypotheses of theorem `gen_sem_*`: only under them is a difference between the two semantics a defect of the model
-          let wt := prog.all fun f => Ir.wtFunc (Ir.sigOf prog) cx.vty f
+          let wt := (prog.all fun f => Ir.wtFunc (Ir.sigOf prog) cx.vty f) && namesFlat inf prog
           let outs := vecs.map fun v =>
             let r1 := Ir.phi concretePrim prog FUEL DEPTH fn.id v σ0
             let r2 := astPhi inf prog astProg DEPTH fn.id v σ0
@@ -517,7 +530,9 @@ def handle (op : String) (args : List String) : String :=
   | "C01.wt", [_src, _name, _vectors, ctx, ir] =>
     -- do the hypotheses of the theorems hold for this program? (statistics of the correspondence run)
     match parseCtx? ctx, sequenceOpt ((parseAll ir).map parseFunc?) with
-    | some inf, some prog => if prog.all fun f => Ir.wtFunc (Ir.sigOf prog) inf.ctx.vty f then "wt" else "not-wt"
+    | some inf, some prog =>
+      if !(prog.all fun f => Ir.wtFunc (Ir.sigOf prog) inf.ctx.vty f) then "not-wt"
+      else if namesFlat inf prog then "wt" else "no-agree"
     | _, _ => "unsupported"
   | "C01.fn", _ => "skip"
   | _, _ => "unsupported-op"
